@@ -107,6 +107,23 @@ func checkC10(c *Check) {
 	}
 	ent := "re(" + E + ")"
 	oldEnt := "old(" + ent + ")"
+	// nested form: the scan loop runs inside a loop over a list of entry lists (or of CRLs); the
+	// scan as a whole is then over when the outer loop is
+	outer := ""
+	for _, s := range pg.States {
+		for _, e := range s.Out {
+			for _, l := range e.Labels {
+				if l.Kind == "rangenext" && l.Key != E && strings.HasPrefix(E, "re("+l.Key+")") {
+					outer = l.Key
+				}
+			}
+		}
+	}
+	scanTop := E
+	if outer != "" {
+		scanTop = outer
+	}
+	scanDone := RangeDone(scanTop)
 	// parameter roles by type: certificate, bundle, signing time
 	sig := scanFn.Fn.Type().String()
 	_ = sig
@@ -189,7 +206,13 @@ func checkC10(c *Check) {
 			return false
 		}
 		switch l.Kind {
-		case "atom", "ret", "assign", "store", "lstore", "call":
+		case "assign":
+			// naming the current entry is not examining it
+			if l.T2 != nil && (l.T2.Key() == ent || l.T2.Key() == "&"+ent) {
+				return false
+			}
+			return true
+		case "atom", "ret", "store", "lstore", "call":
 			return true
 		}
 		return false
@@ -214,7 +237,10 @@ func checkC10(c *Check) {
 
 	// O-C10.3 no OK inside the scan
 	c.onlyAfterExhaustion(pg, "O-C10.3", "no OK verdict inside the scan", "an OK verdict", E, okRets)
-	c.mustPass(pg, "O-C10.3", "OK only after all entries", "an OK verdict", okRets, RangeDone(E))
+	if outer != "" {
+		c.onlyAfterExhaustion(pg, "O-C10.3", "no OK verdict inside the loop over the entry lists", "an OK verdict", outer, okRets)
+	}
+	c.mustPass(pg, "O-C10.3", "OK only after all entries", "an OK verdict", okRets, scanDone)
 
 	// O-C10.4 Revoked inside the loop: permanent reason, not exempt. The scan is left for a Revoked
 	// verdict either by a return from inside the loop or by a break (with a flag that the single exit
@@ -315,18 +341,21 @@ func checkC10(c *Check) {
 			}
 		}
 	}
+	// what is remembered: the entry itself (a pointer) or, field by field, its
+	// revocation time plus whatever else is kept of it (scalar form)
+	remembered := ent
 	for _, s := range pg.States {
 		for _, e := range s.Out {
 			for _, l := range e.Labels {
-				if l.Kind == "assign" && l.T2 != nil && l.T2.Key() == ent && l.Node.Kind == NAssign && l.Node.Note == "" && inBody[s] {
+				if l.Kind == "assign" && l.T2 != nil && (l.T2.Key() == ent || (l.T2.Key() == "&"+ent && l.T != nil && l.T.V != nil && l.T.V.Obj != nil && declaredBeforeLoop(pg, scanTop, l.T.V))) && l.Node.Kind == NAssign && l.Node.Note == "" && inBody[s] {
 					latestVar = l.Key
+					remembered = l.T2.Key()
 				}
 			}
 		}
 	}
 	// what is remembered: the entry itself (a pointer) or, field by field, its
 	// revocation time plus whatever else is kept of it (scalar form)
-	remembered := ent
 	holdFlag := ""
 	if latestVar == "" {
 		for _, s := range pg.States {
@@ -353,7 +382,7 @@ func checkC10(c *Check) {
 				}
 				for _, e := range s.Out {
 					for _, l := range e.Labels {
-						if l.Kind == "assign" && l.Key != latestVar && l.Node.Kind == NAssign && l.Node.Note == "" && l.T != nil && l.T.V != nil && l.T.V.Obj != nil && l.T2 != nil && declaredBeforeLoop(pg, E, l.T.V) {
+						if l.Kind == "assign" && l.Key != latestVar && l.Node.Kind == NAssign && l.Node.Note == "" && l.T != nil && l.T.V != nil && l.T.V.Obj != nil && l.T2 != nil && declaredBeforeLoop(pg, scanTop, l.T.V) {
 							companions[l.Key] = true
 							if k := l.T2.Key(); k == "true" || k == "false" {
 								boolVals[l.Key+"="+k] = true
@@ -429,9 +458,9 @@ func checkC10(c *Check) {
 		// a temporary matching non-exempt entry is either remembered or not later than the remembered one
 		c.perIteration(pg, "O-C10.4", "temporary entry remembered or older", "a matching temporary entry is remembered unless the remembered one is not older", E, AnyOf(noMatch, A("+TLt("+timeP+", "+inv+")"), isAssign, A("-TLt("+oldEnt+".RevocationTime, "+ent+".RevocationTime)")))
 		// final verdicts
-		c.mustPass(pg, "O-C10.4", "post-scan Revoked: after all entries", "the Revoked verdict after the scan", postRev, AnyOf(RangeDone(E), brk))
+		c.mustPass(pg, "O-C10.4", "post-scan Revoked: after all entries", "the Revoked verdict after the scan", postRev, AnyOf(scanDone, brk))
 		c.mustPass(pg, "O-C10.4", "post-scan Revoked: something remembered", "the Revoked verdict after the scan", postRev, AnyOf(isAssign, brk))
-		if remembered != ent {
+		if remembered != ent && remembered != "&"+ent {
 			// scalar form: the reason was tested when the entry was remembered and lives on in the hold flag
 			if holdFlag == "" {
 				c.undecided("O-C10.4", "post-scan Revoked: remembered reason is certificateHold", "the remembered entry is kept field by field but no flag keeps whether its reason is certificateHold", "")
@@ -528,6 +557,25 @@ func checkIterator(c *Check, pg *PG, lit *Term) {
 // then every delta entry if a delta exists, nothing else.
 func checkEntryList(c *Check, top *PG, scan *Instance, spg *PG, E string) {
 	where := c.P.pos(spg.G.Root.Decl.Pos())
+	if strings.HasPrefix(E, "re(?grown:") {
+		// the scan runs inside a loop over a local list of entry lists (or of CRLs)
+		O := E[len("re(") : strings.Index(E, ")")]
+		suffix := E[strings.Index(E, ")")+1:]
+		var L *Var
+		n := 0
+		for _, v := range spg.G.Vars {
+			if v.Obj != nil && v.Name == strings.TrimPrefix(O, "?grown:") {
+				L = v
+				n++
+			}
+		}
+		if n != 1 || (suffix != "" && suffix != ".RevokedCertificateEntries") {
+			c.undecided("O-C10.6", "entries scanned", "cannot identify the list of entry lists "+E+" in "+scan.Name, where)
+			return
+		}
+		listOfListsRules(c, spg, L, O, E, suffix)
+		return
+	}
 	if strings.HasPrefix(E, "?grown:") {
 		// the list is built in the scan function itself
 		var L *Var
@@ -776,4 +824,60 @@ func return10B(c *Check, pg *PG, certP string, match LP, ext, unm string) {
 		{Name: "unknown critical extension on a matching entry", All: []LP{match, A("-OidEq([encoding/asn1.ObjectIdentifier: 2, 5, 29, 24], " + ext + ".Id)"), A("+Truth(" + ext + ".Critical)")}},
 	}, originName)
 
+}
+
+// listOfListsRules: the nested form of O-C10.6. The local list L (ranged over as O) holds the base
+// CRL's entry list, then the delta CRL's if a delta exists, and nothing else, when the outer loop
+// starts; each of its elements is scanned by the loop over E.
+func listOfListsRules(c *Check, pg *PG, L *Var, O, E, suffix string) {
+	where := c.P.pos(pg.G.Root.Decl.Pos())
+	const baseSfx, deltaSfx = ".BaseCRL.RevokedCertificateEntries", ".DeltaCRL.RevokedCertificateEntries"
+	bundle := ""
+	isAssign := func(l Label) bool { return l.Kind == "assign" && l.T != nil && l.T.V == L && l.T2 != nil }
+	for _, s := range pg.States {
+		for _, e := range s.Out {
+			for _, l := range e.Labels {
+				if isAssign(l) && l.T2.Op == "list" && len(l.T2.Args) == 1 && strings.HasSuffix(l.T2.Args[0].Key()+suffix, baseSfx) {
+					bundle = strings.TrimSuffix(l.T2.Args[0].Key()+suffix, baseSfx)
+				}
+			}
+		}
+	}
+	c.add("O-C10.6", "list of entry lists starts with the base CRL", "the list the scan walks is created holding the base CRL's entries", bundle != "", where)
+	if bundle == "" {
+		return
+	}
+	elem := func(sfx string) string { return strings.TrimSuffix(bundle+sfx, suffix) }
+	setBase := LP{Desc: "list := [base entries]", F: func(l Label) bool {
+		return isAssign(l) && l.T2.Op == "list" && len(l.T2.Args) == 1 && l.T2.Args[0].Key() == elem(baseSfx)
+	}}
+	addDelta := LP{Desc: "append the delta entries", F: func(l Label) bool {
+		return isAssign(l) && l.T2.Key() == "append(self, "+elem(deltaSfx)+")"
+	}}
+	var foreign []string
+	for _, s := range pg.States {
+		for _, e := range s.Out {
+			for _, l := range e.Labels {
+				switch {
+				case isAssign(l):
+					if !setBase.F(l) && !addDelta.F(l) {
+						foreign = append(foreign, c.P.pos(l.Node.Pos)+": "+l.String())
+					}
+				case (l.Kind == "store" || l.Kind == "lstore") && l.Node != nil && l.Node.Target != nil:
+					if r, _ := splitPath(l.Node.Target); r.Op == "index" && r.Args[0].Op == "var" && r.Args[0].V == L {
+						foreign = append(foreign, c.P.pos(l.Node.Pos)+": "+l.String())
+					}
+				}
+			}
+		}
+	}
+	c.add("O-C10.6", "list of entry lists holds only the two CRLs", "the list the scan walks is only ever set to [base] or extended by the delta CRL", len(foreign) == 0, where, foreign...)
+	start := AnyOf(RangeNext(O), RangeDone(O))
+	starts := edgeTargets(pg, start)
+	c.mustPass(pg, "O-C10.6", "scan starts only with the base entries listed", "the loop over the entry lists", starts, setBase)
+	c.mustPass(pg, "O-C10.6", "scan starts only with the delta entries listed", "the loop over the entry lists", starts, AnyOf(A("+IsNil("+bundle+".DeltaCRL)"), addDelta))
+	c.noPathFrom(pg, "O-C10.6", "base entries before delta entries", "the list is not reset once the delta entries were added", addDelta, edgeSources(pg, setBase), nil)
+	c.noPathFrom(pg, "O-C10.6", "entry list complete before the scan", "the list is not written once the scan has started", start, edgeSources(pg, AnyOf(setBase, addDelta)), nil)
+	c.perIteration(pg, "O-C10.6", "every listed CRL is scanned", "each element of the list is walked by the entry scan", O, AnyOf(RangeNext(E), RangeDone(E)))
+	c.floor("entry list-of-lists write sites", 2, len(distinctEdgeNodes(pg, setBase))+len(distinctEdgeNodes(pg, addDelta)))
 }
